@@ -764,7 +764,7 @@ def krylov(model, sfield, efield, var):
     try:
         efield.field, i = getattr(sp.sparse.linalg, var.sslsolver)(
                 A=A, b=sfield.field, x0=efield.field, **{TOL: var.tol},
-                maxiter=var.ssl_maxit, atol=1e-30, M=M, callback=callback)
+                maxiter=var.ssl_maxit, atol=0.0, M=M, callback=callback)
     except _ConvergenceError:
         i = -1  # Mark it as error; returned field is all zero.
         var.exit_message += " (returned field is zero)"
